@@ -1,79 +1,184 @@
-"""PROTOTYPE C10: an unprocessable file is left intact, reported, and does not disturb the rest (fault enumeration)."""
+"""C10: an unprocessable file is left intact, reported as failed with its findings unfixed, and does not disturb the rest of the run.
+
+Fault enumeration over  pipeline kind x project size x fault kind x fault position (file index i, and for in-transformer faults the
+j-th repository function entered while transforming that file, j enumerated up to the number of entries observed in a probe run).
+Monitors: H-file (fault injection at the per-file work item: delete the file), H-fp (sys.monitoring PY_START failpoints inside
+LibcstResultTransformer.transform), transformer wrapper (raise at entry), H-pipe/H-rep.  Oracle: differential against the fault-free run of
+the same project, restricted to the other files and codemods; the bad file's bytes; failedFiles; per-finding unfixedFindings; exit status."""
 import base64, collections, json, os, random, sys
-from vf.runner import run_check, Violation
+from vf.runner import run_check, Violation, run_jobs, strip_job
 b64 = lambda b: base64.b64encode(b).decode()
+
+XML_GOOD = b'<?xml version="1.0" encoding="utf-8"?>\n<root>\n  <el k="v">t</el>\n  <other/>\n</root>\n'
 PIPES = {
-    "detector-less": {"argv": ["--codemod-include", "pixee:python/use-set-literal,pixee:python/unused-imports"], "good": b"import os\nx = set([1])\n", "bad_prefix": b"import os\nx = set([1])\n"},
-    "semgrep-detected": {"argv": ["--codemod-include", "pixee:python/requests-verify"], "good": b"import requests\nrequests.get('u', verify=False)\n", "bad_prefix": b"import requests\nrequests.get('u', verify=False)\n"},
-    "sast": {"argv": ["--sonar-hotspots-json", "{res}/sonar.json", "--codemod-include", "sonar:python/secure-random"], "good": b"import random\nrandom.random()\n", "bad_prefix": b"import random\nrandom.random()\n"},
+    "detector-less": {"argv": ["--codemod-include", "pixee:python/use-set-literal,pixee:python/unused-imports"], "good": b"import os\nx = set([1])\ny = set([2, 3])\n", "ext": ".py"},
+    "semgrep-detected": {"argv": ["--codemod-include", "pixee:python/requests-verify"], "good": b"import requests\nrequests.get('u', verify=False)\nrequests.post('v', verify=False)\n", "ext": ".py"},
+    "sast": {"argv": ["--sonar-hotspots-json", "{res}/sonar.json", "--codemod-include", "sonar:python/secure-random"], "good": b"import random\nx = random.random()\ny = random.randint(0, 9)\n", "ext": ".py",
+             "findings": [(2, 4, 19), (3, 4, 24)]},
+    "regex-plugin": {"argv": ["--path-include", "*.txt", "--codemod-include", "vf:python/rx"], "good": b"alpha foo\nbeta\nfoo foo\n", "ext": ".txt", "plugins": [{"kind": "regex", "name": "rx", "pattern": "foo", "replacement": "bar"}]},
+    "xml-plugin": {"argv": ["--path-include", "*.xml", "--codemod-include", "vf:python/xa"], "good": XML_GOOD, "ext": ".xml", "plugins": [{"kind": "xml-attr", "name": "xa", "map": {"el": {"k": "NEW"}}}]},
 }
-BAD = {"invalid-utf8": b"s = '\xff\xfe'\n", "syntax-error": b"def (:\n", "latin1-cookie": b"# -*- coding: latin-1 -*-\ns = '\xe9'\n"}
+BAD_PY = {"invalid-utf8": b"s = '\xff\xfe'\n", "nul-byte": b"s = 'a\x00b'\n", "syntax-error": b"def (:\n", "latin1-cookie": None}
+def bad_bytes(pname, kind, good):
+    if pname in ("regex-plugin",):
+        return {"invalid-utf8": good + b"foo \xff\xfe\n", "nul-byte": good + b"foo\x00\n"}.get(kind)
+    if pname == "xml-plugin":
+        return {"invalid-utf8": good.replace(b"t</el>", b"\xff\xfe</el>"), "syntax-error": good.replace(b"</root>", b"<unclosed>"), "nul-byte": good.replace(b"t</el>", b"\x00</el>")}.get(kind)
+    if kind == "latin1-cookie": return b"# -*- coding: latin-1 -*-\n" + good + b"s = '\xe9'\n"
+    return good + BAD_PY[kind]
+
+def mkjob(pname, n, fault, pos, files, rf, mon, group, bad=None, badb=None, extra=None):
+    P = PIPES[pname]
+    j = {"id": f"{pname}|n{n}|{fault or 'baseline'}" + (f"@{pos}" if pos is not None else "") + (extra or ""), "pipe": pname, "fault": fault, "pos": pos, "bad": bad, "files": files, "result_files": rf,
+         "argv": ["{proj}", "--output", "{out}"] + P["argv"], "monitors": mon, "group": group, "bad_bytes": badb, "n_findings": len(P.get("findings", []))}
+    if P.get("plugins"): j["plugins"] = P["plugins"]
+    return j
+
 def plan(tier, seed):
-    rnd = random.Random(f"C10:{seed}"); jobs = []
+    rnd = random.Random(f"C10:{seed}"); jobs = []; quick = tier == "quick"
+    probes = []
     for pname, P in PIPES.items():
-        for n in ((3,) if tier == "quick" else (3, 5, 8)):
-            names = [f"f{i}.py" for i in range(n)]
-            rf = {"sonar.json": json.dumps({"hotspots": [{"rule": "python:S2245", "status": "OPEN", "component": "proj:" + nm, "textRange": {"startLine": 2, "endLine": 2, "startOffset": 0, "endOffset": 15}} for nm in names]})} if pname == "sast" else {}
+        for n in ((3,) if quick else (3, 5, 8)):
+            names = [f"f{i}{P['ext']}" for i in range(n)]
+            rf = {"sonar.json": json.dumps({"hotspots": [{"key": f"H-{nm}-{k}", "rule": "python:S2245", "status": "TO_REVIEW", "component": "proj:" + nm, "textRange": {"startLine": l, "endLine": l, "startOffset": a, "endOffset": b}}
+                                                         for nm in names for k, (l, a, b) in enumerate(P["findings"])]})} if pname == "sast" else {}
             base = {nm: b64(P["good"]) for nm in names}
-            argv = ["{proj}", "--output", "{out}"] + P["argv"]
-            jobs.append({"id": f"{pname}|n{n}|baseline", "pipe": pname, "fault": None, "pos": None, "files": base, "result_files": rf, "argv": argv, "monitors": {"snap": False}, "group": f"{pname}|n{n}"})
-            positions = range(n) if tier != "quick" else [0, n - 1]
+            group = f"{pname}|n{n}"
+            jobs.append(mkjob(pname, n, None, None, base, rf, {"snap": False}, group))
+            positions = list(range(n)) if not quick else [0, n - 1]
             for i in positions:
-                for kind, tail in BAD.items():
-                    files = dict(base); files[names[i]] = b64(P["bad_prefix"] + tail)
-                    jobs.append({"id": f"{pname}|n{n}|{kind}@{i}", "pipe": pname, "fault": kind, "pos": i, "bad": names[i], "files": files, "result_files": rf, "argv": argv, "monitors": {"snap": False}, "group": f"{pname}|n{n}", "bad_bytes": files[names[i]]})
-                for kind in ("vanish", "raise_transform"):
-                    jobs.append({"id": f"{pname}|n{n}|{kind}@{i}", "pipe": pname, "fault": kind, "pos": i, "bad": names[i], "files": base, "result_files": rf, "argv": argv, "monitors": {"snap": False, "faults": [{"kind": kind, "file": names[i]}]}, "group": f"{pname}|n{n}", "bad_bytes": base[names[i]]})
-                for j in ((3, 17) if tier == "quick" else (1, 2, 3, 5, 8, 13, 21, 34, 40)):
-                    jobs.append({"id": f"{pname}|n{n}|failpoint{j}@{i}", "pipe": pname, "fault": "failpoint", "pos": i, "bad": names[i], "files": base, "result_files": rf, "argv": argv, "monitors": {"snap": False, "faults": [{"kind": "failpoint", "file": names[i], "j": j}]}, "group": f"{pname}|n{n}", "bad_bytes": base[names[i]]})
+                for kind in ("invalid-utf8", "nul-byte", "syntax-error", "latin1-cookie"):
+                    bb = bad_bytes(pname, kind, P["good"])
+                    if bb is None: continue
+                    files = dict(base); files[names[i]] = b64(bb)
+                    jobs.append(mkjob(pname, n, kind, i, files, rf, {"snap": False}, group, names[i], files[names[i]]))
+                files = dict(base); files[names[i]] = b64(b"")
+                jobs.append(mkjob(pname, n, "empty", i, files, rf, {"snap": False}, group, names[i], b64(b"")))
+                jobs.append(mkjob(pname, n, "vanish", i, base, rf, {"snap": False, "faults": [{"kind": "vanish", "file": names[i]}]}, group, names[i], base[names[i]]))
+                jobs.append(mkjob(pname, n, "vanish_before_detector", i, base, rf, {"snap": False, "faults": [{"kind": "vanish_before_detector", "file": names[i]}]}, group, names[i], base[names[i]]))
+                if P["ext"] == ".py":
+                    jobs.append(mkjob(pname, n, "raise_transform", i, base, rf, {"snap": False, "faults": [{"kind": "raise_transform", "file": names[i]}]}, group, names[i], base[names[i]]))
+            if P["ext"] == ".py":
+                # probe: how many repository functions are entered while transforming one file (failpoint far beyond the end never fires)
+                probes.append((pname, n, names, base, rf, group))
+    pres = run_jobs([mkjob(pn, n, "probe", 0, base, rf, {"snap": False, "faults": [{"kind": "failpoint", "file": names[0], "j": 10**9}]}, group, names[0], base[names[0]]) for pn, n, names, base, rf, group in probes], timeout=300)
+    for (pname, n, names, base, rf, group), r in zip(probes, pres):
+        entries = 0
+        if r.get("status") == "ok":
+            entries = max([e["entries"] for e in r["runs"][0]["trace"] if e["k"] == "fp_count"] or [0])
+        ENTRIES[group] = entries
+        if not entries: continue
+        js = list(range(1, entries + 1))
+        if quick: js = sorted(set(js[:: max(1, len(js) // 14)] + js[-3:]))
+        for i in ([0] if quick else ([0, n - 1] if n > 3 else [0, 1, 2])):
+            for j in js:
+                jobs.append(mkjob(pname, n, "failpoint", i, base, rf, {"snap": False, "faults": [{"kind": "failpoint", "file": names[i], "j": j}]}, group, names[i], base[names[i]], extra=f"#j{j}"))
     return jobs
 
+ENTRIES = {}
 _base = {}; _pending = collections.defaultdict(list)
 def per_file(run):
     out = {}
     rep = run["report"] or {"results": []}
     for name, blob in run["tree"].items():
-        out[name] = {"bytes": blob, "changes": [(r["codemod"], cs["diff"], [(c["lineNumber"], c["description"]) for c in cs["changes"]]) for r in rep["results"] for cs in r["changeset"] if cs["path"] == name]}
+        out[name] = {"bytes": blob, "changes": [(r["codemod"], cs["diff"], [(c["lineNumber"], c["description"], len(c.get("findings") or [])) for c in cs["changes"]]) for r in rep["results"] for cs in r["changeset"] if cs["path"] == name],
+                     "failed": sorted(r["codemod"] for r in rep["results"] if any(os.path.basename(f) == name for f in (r.get("failedFiles") or []))),
+                     "unfixed": sorted((r["codemod"], u.get("id"), u.get("lineNumber")) for r in rep["results"] for u in (r.get("unfixedFindings") or []) if u["path"] == name)}
     return out
 
 def evaluate(job, run, base):
-    v = []; cm = job["pipe"]; w = {"case": job["id"], "log": run["log"][-700:]}
+    v = []; cm = job["pipe"]; fk = job["fault"]
+    w = {"case": job["id"], "pipeline": cm, "fault": fk, "position": job["pos"], "log_tail": run["log"][-900:]}
+    V = lambda key, what, **kw: v.append(Violation("C10", key, what, dict(w, **kw), jobs=[strip_job(job)]))
     if run["rc"] != 0 or run["exc"]:
-        return [Violation("C10", f"run-aborted/{job['fault']}/{cm}", f"rc={run['rc']} exc={run['exc']}", w)]
+        V(f"run-aborted/{fk}/{cm}", f"{cm}: the run did not complete (rc={run['rc']} exc={run['exc']}) with fault {fk} on {job['bad']}"); return v, True
+    faults_hit = [e for e in run["trace"] if e["k"] == "fault"]
+    injected = fk in ("invalid-utf8", "nul-byte", "syntax-error", "latin1-cookie", "empty") or bool(faults_hit)
+    if not injected: return None, False      # fault never reached (e.g. failpoint j beyond this file's entries): not a decisive case
     pf = per_file(run); bad = job["bad"]
-    injected = job["fault"] in ("invalid-utf8", "syntax-error", "latin1-cookie") or any(e["k"] == "fault" for e in run["trace"])
-    if not injected: return None  # fault never hit: not a decisive case
     for name, b in base.items():
         if name == bad: continue
-        if pf.get(name) != b: v.append(Violation("C10", f"other-file-disturbed/{job['fault']}/{cm}", f"{name} outcome differs from the fault-free run", dict(w, file=name)))
-    if job["fault"] != "vanish":
-        if pf.get(bad, {}).get("bytes") != "F:" + job["bad_bytes"]: v.append(Violation("C10", f"bad-file-modified/{job['fault']}/{cm}", f"{bad} was modified", w))
-    failed = {os.path.basename(f) for r in run["report"]["results"] for f in (r.get("failedFiles") or [])}
-    if bad not in failed: v.append(Violation("C10", f"not-listed-failed/{job['fault']}/{cm}", f"{bad} not in failedFiles", w))
-    if job["pipe"] == "sast":
-        unf = [u for r in run["report"]["results"] for u in (r.get("unfixedFindings") or []) if u["path"] == bad]
-        if not unf: v.append(Violation("C10", f"findings-not-unfixed/{job['fault']}/{cm}", f"findings of {bad} not reported unfixed", w))
-    return v
+        if pf.get(name) != b:
+            diffk = [k for k in ("bytes", "changes", "failed", "unfixed") if (pf.get(name) or {}).get(k) != b.get(k)]
+            V(f"other-file-disturbed/{fk}/{cm}", f"{name}: outcome differs from the fault-free run in {diffk} (fault {fk} on {bad})", file=name, got=pf.get(name), want=b)
+    if fk == "vanish_before_detector":
+        # the file is gone before any codemod selects it: nothing to report about it, the rest must be unaffected
+        if bad in run["tree"]: V(f"vanished-file-recreated/{cm}", f"{bad} was deleted before the detector ran but exists after the run")
+        return v, True
+    if fk == "vanish":
+        if bad in run["tree"]: V(f"vanished-file-recreated/{cm}", f"{bad} was deleted before its work item but exists after the run")
+    mine = pf.get(bad) or {"changes": [], "failed": [], "unfixed": []}
+    if fk == "empty":
+        if mine["changes"]: V(f"empty-file-changeset/{cm}", f"a changeset is reported for the empty file {bad}")
+        return v, True
+    if fk == "nul-byte":
+        # libcst (and the text pipelines) accept a NUL byte, so the file is processable: either outcome is within the statement.
+        # (that the rewrite turns the NUL into a space is C03's nul-normalised class, not C10's)
+        return v, True
+    if fk == "latin1-cookie" and not mine["failed"] and not mine["changes"] and cm == "semgrep-detected":
+        return v, True   # the detector may legitimately not select an undecodable file
+    results = {r["codemod"]: r for r in run["report"]["results"]}
+    # codemods in which the fault struck this file: all of them for content faults and for vanish, the recorded ones for injected faults
+    hit_cms = sorted({e.get("cm") for e in faults_hit if e.get("cm")}) if fk in ("failpoint", "raise_transform") else sorted(results)
+    if fk == "vanish": hit_cms = sorted(results)[sorted(results).index(faults_hit[0]["cm"]):] if faults_hit and faults_hit[0].get("cm") in results else sorted(results)
+    order = [r["codemod"] for r in run["report"]["results"]]
+    if fk == "vanish" and faults_hit and faults_hit[0].get("cm") in order: hit_cms = order[order.index(faults_hit[0]["cm"]):]
+    for k in hit_cms:
+        r = results.get(k)
+        if r is None: continue
+        failed = {os.path.basename(f) for f in (r.get("failedFiles") or [])}
+        if bad not in failed and not (fk == "vanish" and k != hit_cms[0]):   # a later codemod simply no longer sees a deleted file
+            V(f"not-listed-failed/{fk}/{cm}", f"{bad} could not be processed by {k} ({fk}) but is not in its failedFiles")
+        if any(cs["path"] == bad for cs in r["changeset"]): V(f"failed-file-has-changeset/{fk}/{cm}", f"{k} reports a changeset for {bad} although its processing failed")
+        if cm == "sast" and bad in failed:
+            n_unf = len([u for u in (r.get("unfixedFindings") or []) if u["path"] == bad])
+            if n_unf != job["n_findings"]:
+                V(f"findings-not-unfixed/{fk}/{cm}", f"{bad} has {job['n_findings']} reported findings but {n_unf} unfixedFindings entries after the fault" + (f" (fault at {faults_hit[0].get('where')}, entry #{faults_hit[0].get('j')})" if faults_hit else ""))
+    if set(hit_cms) >= set(results) and fk != "vanish" and pf.get(bad, {}).get("bytes") != "F:" + job["bad_bytes"]:
+        V(f"bad-file-modified/{fk}/{cm}", f"{bad} was modified although no codemod could process it")
+    return v, True
 
 def judge(job, res):
     v = []; st = collections.Counter(); nt = []
     run = res["runs"][0]
+    def handle(j2, r2):
+        x, decisive = evaluate(j2, r2, _base[j2["group"]])
+        if not decisive: st["fault_not_reached"] += 1; return
+        nt.append(j2["id"]); st["fault:" + j2["fault"]] += 1; st["pipeline:" + j2["pipe"]] += 1
+        for e in r2["trace"]:
+            if e["k"] == "fault" and e.get("where"): st["failpoint_sites"] = st.get("failpoint_sites", 0) + 1
+        v.extend(x)
     if job["fault"] is None:
+        if run["rc"] != 0 or run["exc"]:
+            v.append(Violation("C10", f"baseline-run-failed/{job['pipe']}", f"fault-free run failed rc={run['rc']} exc={run['exc']}", {"log": run["log"][-800:]})); return v, st, nt
         _base[job["group"]] = per_file(run)
-        for j2, r2 in _pending.pop(job["group"], []):
-            x = evaluate(j2, r2, _base[job["group"]])
-            if x is None: st["fault_not_hit"] += 1
-            else: nt.append(j2["id"]); v += x
+        for j2, r2 in _pending.pop(job["group"], []): handle(j2, r2)
         return v, st, nt
     if job["group"] not in _base:
         _pending[job["group"]].append((job, run)); return v, st, nt
-    x = evaluate(job, run, _base[job["group"]])
-    if x is None: st["fault_not_hit"] += 1
-    else: nt.append(job["id"]); v += x
+    handle(job, run)
     return v, st, nt
 
+def finalize(stats, counters):
+    req = {"pipeline " + p: stats.get("pipeline:" + p, 0) for p in PIPES}
+    req.update({"fault " + f: stats.get("fault:" + f, 0) for f in ("invalid-utf8", "nul-byte", "syntax-error", "empty", "vanish", "raise_transform", "failpoint")})
+    return [], {"function_entries_per_transform_probe": dict(ENTRIES), "baselines": sorted(_base)}, req
+
 def main():
-    return run_check("C10", "fault_enumeration", plan, judge, "n files x fault kind (bad bytes, vanish, transformer raise, sys.monitoring failpoint j) x position x pipeline kind; differential against the fault-free run; non-trivial = fault actually injected", 20, deciding_counters=("process_file",), timeout=300, module=__name__)
+    return run_check("C10", "fault_enumeration", plan, judge, "pipeline kind (detector-less, semgrep-detected, SAST-driven, regex plug-in, XML plug-in) x n files x fault kind (invalid UTF-8, NUL byte, syntax error, latin-1 cookie, empty, file deleted before its work item, transformer raising at entry, failpoint at the j-th repository function entered inside transform for j up to the probed entry count) x position; differential against the fault-free run; non-trivial = the fault was actually injected/hit; distinct by case id",
+                     60, deciding_counters=("process_file",), timeout=300, module=__name__, finalize=finalize)
+
+def replay(art):
+    out = []
+    for j in art.get("jobs") or []:
+        basej = dict(j); basej["fault"] = None; basej["monitors"] = {"snap": False}
+        P = PIPES[j["pipe"]]; basej["files"] = {nm: b64(P["good"]) for nm in j["files"]}; basej["id"] = "replay-baseline"
+        rb, rf = run_jobs([basej, j], timeout=300)
+        if rb.get("status") != "ok" or rf.get("status") != "ok": continue
+        _base[j["group"]] = per_file(rb["runs"][0])
+        x, dec = evaluate(j, rf["runs"][0], _base[j["group"]])
+        out += x or []
+    return out
 
 if __name__ == "__main__":
     sys.exit(main())
